@@ -57,7 +57,10 @@ pub fn make_module() -> KMap {
 
         match ctx.instance_and_args(is_list, expected_error)? {
             (KValue::List(l), [KValue::List(other)]) => {
-                l.data_mut().extend(other.data().iter().cloned());
+                // The other list might be the list that's being extended,
+                // so its values are copied before the list is borrowed mutably.
+                let values: Vec<_> = other.data().iter().cloned().collect();
+                l.data_mut().extend(values);
                 Ok(KValue::List(l.clone()))
             }
             (KValue::List(l), [KValue::Tuple(other)]) => {
@@ -70,17 +73,20 @@ pub fn make_module() -> KMap {
                 let iterator = ctx.vm.make_iterator(iterable)?;
 
                 {
-                    let mut list_data = l.data_mut();
+                    // The iterator might be iterating over the list that's being extended,
+                    // so its output is collected before the list is borrowed mutably.
                     let (size_hint, _) = iterator.size_hint();
-                    list_data.reserve(size_hint);
+                    let mut values = Vec::with_capacity(size_hint);
 
                     for value in iterator.map(collect_pair) {
                         match value {
-                            KIteratorOutput::Value(value) => list_data.push(value.clone()),
+                            KIteratorOutput::Value(value) => values.push(value.clone()),
                             KIteratorOutput::Error(error) => return Err(error),
                             _ => unreachable!(),
                         }
                     }
+
+                    l.data_mut().extend(values);
                 }
 
                 Ok(KValue::List(l))
